@@ -51,6 +51,14 @@ def enumerate_cases(tier):
             for pl in ([None, 10] if takes_places else [None]):
                 yield {'fn': fn, 'arg': arg, 'places': pl, 'mode': 'formula',
                        'spell': 'native'}
+    # a BLANK where the number is expected counts as 0 (padded like 0)
+    for fn in BIN_FUNCS:
+        if not fn.startswith('DEC'):
+            continue
+        for pl in PLACES:
+            for mode in ('call', 'formula'):
+                yield {'fn': fn, 'arg': 0, 'places': pl, 'mode': mode,
+                       'spell': 'blank'}
     edges = []
     for e in (-(1 << 29), (1 << 29) - 1, -(1 << 39), (1 << 39) - 1,
               -512, 511, 0):
@@ -190,6 +198,8 @@ def _spelled(case):
         return float(int(arg))      # the digits as a float: 110.0
     if spell == 'Text':
         return xl.Text(arg)
+    if spell == 'blank':
+        return None
     return arg
 
 
@@ -205,6 +215,8 @@ def observe(fn, arg, places, mode, spell='native'):
         a = str(int(arg))
     elif spell == 'floatnum':
         a = repr(float(int(arg)))
+    elif spell == 'blank':
+        a = 'K9'        # a cell nobody has written to
     else:
         a = _lit(arg)
     f = '=%s(%s%s)' % (fn, a, '' if places is None else ',' + _lit(places))
